@@ -334,13 +334,29 @@ def part_E(ck, rng, n):
         nsw = [rng.choice([1, 2, 3]) for _ in range(nl - 1)] + [1]
         c = rfrac(rng, -2, 2)
         levels_cfg, lams = [], []
+        # space dimensions: scalar (also checked against ref_cycle) or a vector hierarchy with halving / equal dims and the
+        # rational averaging / injection space transfer of ExactSpaceTransfer
+        dims = [1] * nl
+        if i % 3 == 2:
+            d = rng.choice([2, 4])
+            dims = []
+            for l in range(nl):
+                dims.append(d)
+                if d % 2 == 0 and rng.random() < 0.6:
+                    d //= 2
         for l in range(nl):
             lam = rfrac(rng, -3, 1)
             lams.append(lam)
-            levels_cfg.append(dict(num_nodes=nn[l], quad_type='RADAU-RIGHT', dim=1, QI=rng.choice(['IE', 'LU', 'MIN-SR-S', 'IEpar']),
-                                   lam=(lam,), c=(c,)))
+            if dims[l] == 1:
+                lamv, cv = (lam,), (c,)
+            else:
+                lamv, cv = tuple(rfrac(rng, -3, 1) for _ in range(dims[l])), tuple(rfrac(rng, -2, 2) for _ in range(dims[l]))
+            levels_cfg.append(dict(num_nodes=nn[l], quad_type='RADAU-RIGHT', dim=dims[l], QI=rng.choice(['IE', 'LU', 'MIN-SR-S', 'IEpar']),
+                                   lam=lamv, c=cv))
         dt = F(1, rng.choice([4, 8]))
         u0 = rfrac(rng, -3, 3)
+        u0v = [u0] if dims[0] == 1 else [rfrac(rng, -3, 3) for _ in range(dims[0])]
+        scalar = all(d == 1 for d in dims)
         cfg = dict(kind='GI', levels=levels_cfg, num_procs=1, maxiter=1, restol=F(-1), dt=dt, predict_type=None, nsweeps=nsw,
                    finter=False, small_tables=24)
         try:
@@ -350,27 +366,28 @@ def part_E(ck, rng, n):
             lv = []
             for L in S.levels:
                 M = L.sweep.coll.num_nodes
-                lv.append(dict(M=M, dt=L.params.dt, lam=L.prob.lam[0], c=L.prob.c[0],
+                lv.append(dict(M=M, dt=L.params.dt, lam=L.prob.lam[0], c=L.prob.c[0], lamv=list(L.prob.lam), cv=list(L.prob.c),
                                Q=[[L.sweep.coll.Qmat[a, b] for b in range(M + 1)] for a in range(M + 1)],
                                QI=[[L.sweep.QI[a, b] for b in range(M + 1)] for a in range(M + 1)],
                                nodes=[F(0)] + [F(x) for x in L.sweep.coll.nodes],
                                t=[F(0)] + [L.params.dt * F(x) for x in L.sweep.coll.nodes]))
-            R, P = [], []
+            R, P, RS, PS = [], [], [], []
             for k in range(nl - 1):
                 bt = S._Step__transfer_dict[(S.levels[k], S.levels[k + 1])].__self__
+                RS.append([list(r) for r in bt.space_transfer.Rm]); PS.append([list(r) for r in bt.space_transfer.Pm])
                 R.append([[bt.Rcoll[a, b] for b in range(lv[k]['M'])] for a in range(lv[k + 1]['M'])])
                 P.append([[bt.Pcoll[a, b] for b in range(lv[k + 1]['M'])] for a in range(lv[k]['M'])])
             er.Recorder.log = []; er.Recorder.deep = True
-            C.run(u0=ex.FracVec([u0]), t0=F(0), Tend=dt)
+            C.run(u0=ex.FracVec(u0v), t0=F(0), Tend=dt)
             log = er.Recorder.log
-            ref = ref_cycle(lv, R, P, nsw, u0)
+            ref = ref_cycle(lv, R, P, nsw, u0) if scalar else None
         except (ZeroDivisionError, StopIteration):
             continue
         post = [e for e in log if e['cb'] == 'post_step'][0]
-        ck.case(key=('mgrit', nl, tuple(nn), tuple(nsw), tuple(l['QI'] for l in levels_cfg)), nontrivial=True,
-                sample=dict(levels=nl, nodes=nn, nsweeps=nsw))
+        ck.case(key=('mgrit', nl, tuple(nn), tuple(nsw), tuple(l['QI'] for l in levels_cfg), tuple(dims)), nontrivial=True,
+                sample=dict(levels=nl, nodes=nn, nsweeps=nsw, dims=dims))
         ck.traces += 1
-        for l in range(nl):
+        for l in (range(nl) if scalar else []):
             got = [v[0] for v in post['levels'][l]['u']]
             if got != ref[l]['u']:
                 dev = max(abs(a - b) for a, b in zip(got, ref[l]['u']))
@@ -387,16 +404,16 @@ def part_E(ck, rng, n):
             pre = 0 if l == 0 else (1 if l == nl - 1 else nsw[l])
             post = nsw[0] if l == 0 else (0 if l == nl - 1 else nsw[l])
             return ('{| ml_M := %d%%nat; ml_dt := %s; ml_nodes := %s; ml_Q := %s; ml_QI := %s; '
-                    'ml_prob := {| p_dim := 1%%nat; p_lam := %s; p_mu := %s; p_c := %s |}; ml_pre := %d%%nat; ml_post := %d%%nat |}'
-                    % (d['M'], qc(d['dt']), qcl(d['nodes']), qcm(d['Q']), qcm(d['QI']), qcm([[d['lam']]]), qcm([[0]]), qcm([[d['c']]]), pre, post))
+                    'ml_prob := {| p_dim := %d%%nat; p_lam := %s; p_mu := %s; p_c := %s |}; ml_pre := %d%%nat; ml_post := %d%%nat |}'
+                    % (d['M'], qc(d['dt']), qcl(d['nodes']), qcm(d['Q']), qcm(d['QI']), dims[l], qcm([d['lamv']]), qcm([[0] * dims[l]]), qcm([d['cv']]), pre, post))
 
         def mxfer(k):
             Mf, Mc = lv[k]['M'], lv[k + 1]['M']
-            return ('{| mx_df := 1%%nat; mx_dc := 1%%nat; mx_Rs := %s; mx_Ps := %s; mx_Rcoll := %s; mx_Pcoll := %s |}'
-                    % (qcm([[1]]), qcm([[1]]), qcm([[0] * (Mf + 1)] + [[0] + list(r) for r in R[k]]), qcm([[0] * (Mc + 1)] + [[0] + list(r) for r in P[k]])))
+            return ('{| mx_df := %d%%nat; mx_dc := %d%%nat; mx_Rs := %s; mx_Ps := %s; mx_Rcoll := %s; mx_Pcoll := %s |}'
+                    % (dims[k], dims[k + 1], qcm(RS[k]), qcm(PS[k]), qcm([[0] * (Mf + 1)] + [[0] + list(r) for r in R[k]]), qcm([[0] * (Mc + 1)] + [[0] + list(r) for r in P[k]])))
         pred = [e for e in log if e['cb'] == 'post_predict'][0]['levels'][0]
-        expected = [v[0] for v in post['levels'][0]['u'][1:]] + [v[0] for v in post['levels'][0]['f'][1:]]
-        mcases.append((dict(levels=nl, nodes=nn, nsweeps=nsw, QI=[x['QI'] for x in levels_cfg], lam=[str(x) for x in lams], c=str(c), dt=str(dt), u0=str(u0)),
+        expected = [x for v in post['levels'][0]['u'][1:] for x in v] + [x for v in post['levels'][0]['f'][1:] for x in v]
+        mcases.append((dict(levels=nl, nodes=nn, nsweeps=nsw, dims=dims, QI=[x['QI'] for x in levels_cfg], lam=[str(x) for x in lams], c=str(c), dt=str(dt), u0=str(u0)),
                        '({| m_t0 := %s; m_fine := %s; m_rest := %s; m_u := %s; m_f := %s |}, %s)'
                        % (qc(F(0)), mlevel(0), coq_list(['(%s, %s)' % (mxfer(k), mlevel(k + 1)) for k in range(nl - 1)]),
                           qcm(pred['u']), qcm(pred['f']), qcl(expected))))
@@ -557,7 +574,9 @@ def run(ck):
     ck.log('part C done')
     mcases = part_E(ck, rng, 600 if thorough else 60)
     ck.log('part E done')
-    eval_mcases(ck, mcases)
+    # the kernel evaluation of the function-based model re-evaluates closures (no memoisation in the generic model): quick tier
+    # evaluates the first 27 of the 60 iterations (scalar, vector-valued and 4-level ones alike), thorough all of them
+    eval_mcases(ck, mcases if thorough else mcases[:27])
     ck.log('vcycle model evaluated')
     part_D(ck, rng, thorough)
     ck.log('part D done')
